@@ -215,6 +215,12 @@ tzm_open(const char *fn)
 	}
 	/* turn offset into native endianness */
 	m->off = be32toh(m->off);
+	if (m->off > fz - sizeof(*m) || (fz - sizeof(*m) - m->off) % sizeof(znoff_t) ||
+	    (m->off && m->data[m->off - 1U])) {
+		/* zone names and mapped names must be inside the file,
+		 * and the zone names must be terminated */
+		goto mun;
+	}
 	/* also put fd and map size into m */
 	m->flags[0U] = (znoff_t)fd;
 	m->flags[1U] = (znoff_t)st->st_size;
@@ -247,10 +253,17 @@ DEFUN const char*
 tzm_find(tzmap_t m, const char *mname)
 {
 /* lookup zname for MNAME */
-	const znoff_t *sp = (const void*)tzm_mnames(m);
-	const znoff_t *ep = sp + tzm_mname_size(m) / sizeof(*sp) - 1U;
+	const znoff_t *const beg = (const void*)tzm_mnames(m);
+	const size_t nmn = tzm_mname_size(m) / sizeof(*beg);
+	const znoff_t *sp = beg;
+	const znoff_t *ep = sp + nmn - 1U;
+	const char *const end = (const char*)(beg + nmn);
 	const char *zns = tzm_znames(m);
 
+	if (nmn < 2U) {
+		/* not a single mapping */
+		return NULL;
+	}
 	/* do a bisection now */
 	do {
 		const char *mp = mname;
@@ -262,7 +275,7 @@ tzm_find(tzmap_t m, const char *mname)
 			/* fast forward to the next entry */
 			tp += sizeof(*sp);
 		} else {
-			while (tp[-1] != '\0') {
+			while (tp > (const char*)beg && tp[-1] != '\0') {
 				/* rewind to beginning */
 				tp--;
 			}
@@ -270,7 +283,11 @@ tzm_find(tzmap_t m, const char *mname)
 		/* store tp again */
 		p = tp;
 		/* now unroll a strcmp */
-		for (; *mp && *mp == *tp; mp++, tp++);
+		for (; tp < end && *mp && *mp == *tp; mp++, tp++);
+		if (tp >= end) {
+			/* ran off the mapped names, can't be a mapping */
+			return NULL;
+		}
 		if (*mp - *tp < 0) {
 			/* use lower half */
 			ep = (const znoff_t*)p - 1U;
@@ -279,12 +296,18 @@ tzm_find(tzmap_t m, const char *mname)
 			const znoff_t *op =
 				(const znoff_t*)ALIGN_TO(znoff_t, tp - 1U) + 1U;
 
+			if (op >= beg + nmn) {
+				/* no room for the offset */
+				return NULL;
+			}
+
 			if (*mp - *tp > 0) {
 				/* use upper half */
 				sp = op + 1U;
 			} else {
 				/* found it */
-				return zns + (be32toh(*op) >> 8U);
+				const size_t zo = be32toh(*op) >> 8U;
+				return zo < tzm_zname_size(m) ? zns + zo : NULL;
 			}
 		}
 	} while (sp < ep);
